@@ -61,7 +61,7 @@ Definition decl_names_ok (d : fdecl) : bool :=
    " " and is not "i64" *)
 Definition prog_names_ok (p : fprog) : bool := forallb decl_names_ok (fpdecls p).
 
-(* the part of [decls_ok] the checker did not establish until fix <commit15> of /repo (now it does:
+(* the part of [decls_ok] the checker did not establish until fix eb42971 of /repo (now it does:
    Proof/CheckDecls.v check_gen_decl_types_wf): every type written in a data/codata
    declaration is i64, a parameter without arguments, or a declared type with the right number of
    well-formed arguments *)
